@@ -207,3 +207,80 @@ Qed.
 
 Corollary sre_imatch_lang ic r w : sre_imatch ic r w = true <-> sre_lang ic r (l_of w).
 Proof. apply sre_run_lang. Qed.
+
+(* ------------------------------------------------------------------------------ *)
+(* re.IGNORECASE: only the lower-cased character matters                           *)
+
+Ltac all_ascii c := destruct c as [[] [] [] [] [] [] [] []]; vm_compute; try reflexivity; try discriminate.
+
+Lemma lower_idem c : lower (lower c) = lower c.
+Proof. all_ascii c. Qed.
+
+Lemma upper_lower c : upper (lower c) = upper c.
+Proof. all_ascii c. Qed.
+
+Lemma lower_or_upper c : c = lower c \/ c = upper c.
+Proof. all_ascii c; auto. Qed.
+
+Lemma cls_has_lower k c : cls_has k (lower c) = cls_has k c.
+Proof. destruct k; all_ascii c. Qed.
+
+Lemma nl_lower c : Ascii.eqb (lower c) nl = Ascii.eqb c nl.
+Proof. all_ascii c. Qed.
+
+Lemma chr_eq_ic a c : chr_eq true a c = Ascii.eqb (lower a) (lower c).
+Proof.
+  unfold chr_eq. cbn [andb]. destruct (Ascii.eqb a c) eqn:E; [|reflexivity].
+  apply Ascii.eqb_eq in E. subst. rewrite Ascii.eqb_refl. reflexivity.
+Qed.
+
+Lemma chr_eq_lower a c : chr_eq true a (lower c) = chr_eq true a c.
+Proof. rewrite !chr_eq_ic, lower_idem. reflexivity. Qed.
+
+Lemma item_has_lower it c : item_has true it (lower c) = item_has true it c.
+Proof.
+  unfold item_has. cbn [andb]. rewrite lower_idem, upper_lower.
+  destruct (lower_or_upper c) as [E|E]; rewrite E at 4;
+    destruct (item_has1 it (lower c)), (item_has1 it (upper c)); reflexivity.
+Qed.
+
+Lemma set_has_lower neg items c : set_has true neg items (lower c) = set_has true neg items c.
+Proof.
+  unfold set_has. f_equal. induction items as [|it items IH]; [reflexivity|].
+  cbn [existsb]. rewrite item_has_lower, IH. reflexivity.
+Qed.
+
+Lemma deriv_lower r : forall c, deriv true (lower c) r = deriv true c r.
+Proof.
+  induction r; intro x; cbn [deriv]; try reflexivity;
+    rewrite ?chr_eq_lower, ?nl_lower, ?cls_has_lower, ?set_has_lower, ?IHr, ?IHr1, ?IHr2; reflexivity.
+Qed.
+
+Lemma sre_run_lower w : forall r, sre_run true r (map lower w) = sre_run true r w.
+Proof.
+  induction w as [|c w IH]; intro r; [reflexivity|]. cbn [map sre_run].
+  rewrite deriv_lower. apply IH.
+Qed.
+
+Lemma l_of_s_of' l : l_of (s_of l) = l.
+Proof. apply list_ascii_of_string_of_list_ascii. Qed.
+
+Theorem sre_imatch_lower r w : sre_imatch true r (lower_str w) = sre_imatch true r w.
+Proof. unfold sre_imatch, lower_str. rewrite l_of_s_of'. apply sre_run_lower. Qed.
+
+Lemma lower_str_idem w : lower_str (lower_str w) = lower_str w.
+Proof.
+  unfold lower_str. rewrite l_of_s_of', map_map. f_equal. apply map_ext. apply lower_idem.
+Qed.
+
+Lemma word_eq_ic w x : word_eq true w x = String.eqb (lower_str w) (lower_str x).
+Proof.
+  unfold word_eq. cbn [andb]. destruct (String.eqb w x) eqn:E; [|reflexivity].
+  apply String.eqb_eq in E. subst. rewrite String.eqb_refl. reflexivity.
+Qed.
+
+Lemma word_eq_lower w x : word_eq true w (lower_str x) = word_eq true w x.
+Proof. rewrite !word_eq_ic, lower_str_idem. reflexivity. Qed.
+
+Lemma word_eq_mono w x : word_eq false w x = true -> word_eq true w x = true.
+Proof. unfold word_eq. cbn. intro H. rewrite orb_false_r in H. rewrite H. reflexivity. Qed.
